@@ -615,6 +615,25 @@ def c18_case(col, rng, cidx, tmpdir, jobref=None):
                     col.violation(pid, "restart_recomputed_cached_nodes", dict(recomputed=rec3, second_restart=True, source=S.render(sp)), rp2)
                 if ref[0] == "ok" and rmode != "cache_deps_of" and not same(r2[1], r3[1]):
                     col.violation(pid, "restart_value_differs_from_uncached_run", dict(expected=short(r2[1], 300), got=short(r3[1], 300), second_restart=True, source=S.render(sp)), rp2)
+    if rng.random() < 0.3 and r2[0] == "ok":
+        # the same cache file is written again by a later caching run with OTHER arguments, and restarted from again
+        args_b = [Sym("arg", cidx, "second")]
+        rb1 = probes.run_op("caching_run_same_path", lambda: op_exec(d2, kw1, args_b))
+        kwb = {k: v for k, v in kw2.items() if k != "cache_in"}
+        B.reset_log()
+        rb2 = probes.run_op("restart_run_same_path", lambda: op_exec(d2, kwb, args_b))
+        entb, _vb = observed(B.snapshot())
+        col.evaluations += 1
+        col.counters["c18_same_path_rewritten_and_restarted"] += 1
+        refb = S.run_reference(sp, args_b, plain, enabled=sel2 | {i for i in cached_sites})
+        if rb1[0] == "ok" and refb[0] == "ok":
+            if rb2[0] != "ok":
+                col.violation(pid, "restart_from_cache_raised", dict(exc=repr(rb2[1])[:300], second_use_of_same_file=True, source=S.render(sp)), rp2)
+            elif not same(refb[1].result, rb2[1]):
+                col.violation(pid, "restart_returns_values_of_an_older_cache_file_content", dict(
+                    expected=short(refb[1].result, 300), got=short(rb2[1], 300), caching=S.jsonable(kw1), restart=S.jsonable(kwb), source=S.render(sp)), rp2)
+            elif sorted(x for x in entb if x in cached):
+                col.violation(pid, "restart_recomputed_cached_nodes", dict(recomputed=sorted(x for x in entb if x in cached), second_use_of_same_file=True, source=S.render(sp)), rp2)
     col.hashes.add(S.spec_hash({"s": S.render(sp), "k1": {k: v for k, v in S.jsonable(kw1).items() if k != "cache_in"},
                                 "k2": {k: v for k, v in S.jsonable(kw2).items() if k != "from_cache"}}))
     if cidx % 40 == 0:
